@@ -221,7 +221,7 @@ def run(ctx: common.Ctx):
                     jobs.append(("b", fn, d, True))
     res = tables.pmap(_dispatch, jobs, chunk=8)
     elements = 0
-    for (kind, fn, d, lazy), r in zip(jobs, res):
+    for (kind, fn, d, lazy), r in tables.pairs(ctx, jobs, res):
         mode = "traced" if lazy else "eager"
         ctx.case((fn, d, mode), True, {"function": fn, "dtype": d, "mode": mode, "elements": r.get("n")} if len(ctx.samples) < 6 else None)
         ctx.count(f"mode:{mode}")
